@@ -206,18 +206,39 @@ def driver_modes(ctx):
         seeds = {show(call_parts(x.args[0])[1][0]) for x in uses if call_parts(x.args[0])[1]}
         ctx.ob("BIND-2", f"driver.afqmc ({mode}): the cotangent of the operator (index 1) is read, with unit seed",
                idx == {1} and seeds == {"1.0"}, f"indices {sorted(idx)}, seeds {sorted(seeds)}", fi, e.line)
-    # unpack order: (energy, derivative/vjp_fun, state)
+    # unpack order: (energy, derivative/vjp_fun, state): the third result is the new walker state and must be stored
+    # back into the variable the state primal of the next call is read from (loop-carried), whatever its name
     order_ok = True
+    why = []
     for e, t in calls:
-        names = []
+        targets = {}
         for ev_ in ev.events:
-            if ev_.kind == "assign" and ev_.data[1].op == "getitem" and ev_.data[1].args[0] is t:
-                names.append((ev_.data[1].args[1].args[0], ev_.data[0]))
-        names = [n for _, n in sorted(names)]
-        want0, want2 = "block_energy_n", "prop_data"
-        if len(names) != 3 or names[0] != want0 or names[2] != want2:
+            if ev_.kind == "assign" and ev_.data[1].op == "getitem" and ev_.data[1].args[0] is t and \
+                    ev_.data[1].args[1].op == "const":
+                targets[ev_.data[1].args[1].args[0]] = ev_.data[0]
+        _, pos_, _ = call_parts(t)
+        state = pos_[1].args[2] if func_name(t) == "jax.jvp" and pos_[1].op == "tuple" and len(pos_[1].args) == 3 else (
+            pos_[3] if func_name(t) == "jax.vjp" and len(pos_) == 4 else None)
+        carried = {x.args[1] for x in subterms(state) if x.op in ("havoc", "loopout") and len(x.args) > 1
+                   and isinstance(x.args[1], str)} if state is not None else set()
+        if isinstance(state, type(t)) and state.op == "sym":
+            carried.add(state.args[0])
+        if sorted(targets) != [0, 1, 2] or len(set(targets.values())) != 3:
             order_ok = False
-    ctx.ob("BIND-2", "driver.afqmc: AD results are unpacked as (energy, derivative, state)", order_ok, "", fi)
+            why.append(f"results unpacked to {targets}")
+        elif targets[2] not in carried:
+            order_ok = False
+            why.append(f"result [2] is stored to '{targets[2]}' but the state primal is read from {sorted(carried)}")
+    ctx.ob("BIND-2", "driver.afqmc: AD results are unpacked as (energy, derivative, state) and the state is carried to "
+           "the next block", order_ok, "; ".join(why), fi)
+    # forward mode: result [1] is the tangent (the observable); it is the value screened for nan / inf
+    e_j, t_j = jv[0]
+    screened = [strip_wrappers(call_parts(x)[1][0]) for x in all_terms_of(ev) if x.op == "call" and
+                (func_name(x) or "").split(".")[-1] in ("isnan", "isinf") and call_parts(x)[1]]
+    fw = [x for x in screened if x.op == "getitem" and x.args[0] is t_j and x.args[1].op == "const"]
+    ok_role = bool(fw) and {x.args[1].args[0] for x in fw} == {1}
+    ctx.ob("BIND-2", "driver.afqmc (forward): the tangent output (index 1) is the value used and screened as the observable",
+           ok_role, f"nan/inf screening reads result index {sorted({x.args[1].args[0] for x in fw})}", fi, e_j.line)
     # wrapper binding is checked in C12 (driver dispatch); restate the link here
     disp, problems = entries.driver_dispatch(p)
     ok = not problems and all(v[1].get("coupling") is sym("§coupling") and v[1].get("observable_op") is sym("§operator")
